@@ -258,7 +258,7 @@ def gen_case(rng):
 	for _ in range(nseq):
 		lclass = rng.random()
 		if lclass < 0.25:
-			n = rng.choice([0, 1, lp, k, max(lp + k - 1, 0), lp + k, lp + k + 1, lp + k + 2, 2 * (lp + k)])
+			n = rng.choice([0, 1, lp, k, max(k - 1, 0), k // 2 + 1, max(lp + k - 1, 0), lp + k, lp + k + 1, lp + k + 2, 2 * (lp + k)])
 		elif lclass < 0.9:
 			n = rng.randint(0, 300)
 		else:
